@@ -248,6 +248,9 @@ def build_image(case):
             g = G[v[1] % ngr]
             assert v[2] < g['mem_extra'], 'bss pointer outside the zero-filled part'
             return g['vaddr'] + g['filesz'] + v[2]
+        if kind == 'edge':       # first / last file-backed byte of a load
+            g = G[v[1] % ngr]
+            return g['vaddr'] + (0 if v[2] == 'first' else g['filesz'] - 1)
         raise ValueError(v)
 
     seq = [list(t) for t in case['tags']] + [[DT_NULL, case.get('null_val', 0)]] + [list(t) for t in case['after']]
